@@ -28,6 +28,7 @@ import JanetModel.Gen.FiberFrame
 import JanetModel.Gen.Compile
 import JanetModel.Compile.Theorem
 import JanetModel.Compile.SeqTheorem
+import JanetModel.Compile.SeqCore
 namespace JanetModel.Props.C02
 open JanetModel.Emit
 
@@ -313,7 +314,8 @@ example (c : CState) (h : c.scopes = []) :
         scope's symbol list extended by `nsyms` (new names of `def`, or the hidden names of a closed `do`) and its allocator replaced
         by one that keeps everything that was allocated allocated (`max` monotone); `slot` is a constant, a named local allocated at
         exit, or an unnamed register that was free at entry, is allocated at exit and carries no name; the boxes only grow; the
-        compile-time invariant holds again for `c'`, `env'`, `s'`;
+        compile-time invariant holds again for `c'`, `env'`, `s'`; names and registers are framed (`NameFrame`: a register that was
+        allocated and nameless at entry is nameless at exit; a named result register allocated at entry had a visible name at entry);
       * run side: for every VM configuration `k` of one activation (frame `f0` on `rest`, any pc) whose world is `s`'s, whose pending
         arguments are empty and whose registers satisfy `EnvD` — wherever `seg` sits in the function's code, with the function's
         final constant pool / value table extending the ones at this point and the frame large enough — the VM reaches pc + |seg|
@@ -337,12 +339,17 @@ theorem compile_correct_statements (p : Program) (f0 : Frame) (rest : List Frame
                     map := c.map ++ segm, vals := c'.vals } ∧
       PrefA c.vals c'.vals ∧ (∀ r, sc.ra.alloc r = true → ra'.alloc r = true) ∧ sc.ra.max ≤ ra'.max ∧
       SlotOK2 sc ra' c'.scopes c'.vals slot ∧ PrefA s.boxes s'.boxes ∧ EnvS G c'.scopes env' s'.boxes.size ra' ∧
+      NameFrame sc c.scopes c'.scopes slot ∧
       ∀ (k : Cfg), k.w = s.st.world → k.args = #[] → EnvD c.scopes env s k.regs →
         CodeAt (p.defs.getD f0.defIdx default).code k.pc seg → PrefL (pool ++ more) P → PrefA c'.vals V → ra'.max < k.regs.size →
         ∃ regs', Reach p (inj f0 rest k) (inj f0 rest { regs := regs', pc := k.pc + seg.length, args := #[], w := s'.st.world }) ∧
           regs'.size = k.regs.size ∧ (∀ r, sc.ra.alloc r = true → regs'.getD r .nil = k.regs.getD r .nil) ∧ slotVal V regs' slot = v ∧
-          EnvD c'.scopes env' s' regs' :=
-  ts_correct p f0 rest V P hP hK FF G fuel e opts c c' slot sc rs pool ps n cur env env' s s' v ht hh hs hp hl htop hfrag hcomp hsem henv
+          EnvD c'.scopes env' s' regs' := by
+  obtain ⟨ra', nsyms, more, seg, segm, h1, h2, h3, h4, h5, h6, h7, h8, vm⟩ :=
+    ts_correct_strong p f0 rest V P hP hK FF G fuel e opts c c' slot sc rs pool ps n cur env env' s s' v ht hh hs hp hl htop hfrag hcomp hsem henv
+  refine ⟨ra', nsyms, more, seg, segm, h1, h2, h3, h4, h5, h6, h7, h8, fun k a1 a2 a3 a4 a5 a6 a7 => ?_⟩
+  obtain ⟨regs', r1, r2, r3, r4, r5⟩ := vm k a1 a2 a3 a4 a5 a6 a7
+  exact ⟨regs', r1, r2, r3, r4 rfl, r5⟩
 
 /-- non-vacuity: `(do (def x (tuple 7)) (do (def y x) (emit y)) x)` is in the fragment with `G = {tuple, emit}` -/
 example : TS (fun f => f = "tuple" ∨ f = "emit")
@@ -363,6 +370,68 @@ example : TS (fun f => f = "tuple" ∨ f = "emit")
 example (G : String → Prop) (sc : Scope) (rs : List Scope) (h : ∀ x, lk (sc :: rs) x = none) (nb : Nat) :
     EnvS G (sc :: rs) [] nb sc.ra := ⟨fun f _ => h f, fun x => Or.inl ⟨h x, rfl⟩⟩
 example (x : String) : lk [({ fn := true } : Scope)] x = none := rfl
+
+/-- **Compile correctness, calls with any number of operands** — fragment `TF G false`:
+    `e ::= literal | symbol | (f e ...) | (do e ...) | (upscope e ...) | (def x e)` with `(f e₁ … eₙ)`, n ≥ 0, a call of a global core function
+    (`G f`; not `apply`, not a special form); same quantification, invariant and conclusion as `compile_correct_statements`.
+    New with respect to it: `janetc_toslots` compiles the operands left to right and HOLDS their slots together — an operand's
+    value survives the code of the later operands (a constant; a named local; an unnamed register that was free when its operand
+    started and stays allocated), and no later operand gives a name to an earlier operand's unnamed register (`NameFrame`, now part
+    of the conclusion of every case) — `Lang/Sem.evalArgs` threads environment and state the same way; `janetc_pushslots` pushes
+    in groups of three / two / one (`pushN`, Compile/SeqPush.lean: PUSH_3 / PUSH_2 / PUSH with up to three constant operands
+    loaded into temporaries held simultaneously, for every mix of constant and local operands; the pending arguments end up in
+    operand order); target register, JOP_CALL against `applyFn`; `janetc_freeslots` releases exactly the unnamed operand registers. -/
+theorem compile_correct_nary_calls (p : Program) (f0 : Frame) (rest : List Frame) (V : Array Value) (P : List JanetModel.Emit.KConst)
+    (hP : P.length < 65536)
+    (hK : ∀ i, i < P.length → (p.defs.getD f0.defIdx default).consts.getD i .nil = litOf V (P.getD i .nil))
+    (FF : FloatFacts) (G : String → Prop)
+    (fuel : Nat) (e : Expr) (opts : Fopts) (c c' : CState) (slot : JSlot) (sc : Scope) (rs : List Scope) (pool : List JanetModel.Emit.KConst)
+    (ps : List (List JanetModel.Emit.KConst)) (n : Nat) (cur : Pos) (env env' : Env) (s s' : SS) (v : Value)
+    (ht : opts.tail = false) (hh : opts.hint = none)
+    (hs : c.scopes = sc :: rs) (hp : c.pools = pool :: ps) (hl : c.lim ≤ 240) (htop : sc.top = false) (hfrag : TF G false e)
+    (hcomp : cValue fuel opts e c = some (slot, c')) (hsem : eval n cur env e s = .ok (v, env') s')
+    (henv : EnvS G c.scopes env s.boxes.size sc.ra) :
+    ∃ (ra' : JanetModel.Emit.RA) (nsyms : List SymPair) (more : List JanetModel.Emit.KConst) (seg : List CI) (segm : List Pos),
+      c' = { c with scopes := { sc with ra := ra', syms := sc.syms ++ nsyms } :: rs, pools := (pool ++ more) :: ps, buf := c.buf ++ seg,
+                    map := c.map ++ segm, vals := c'.vals } ∧
+      PrefA c.vals c'.vals ∧ (∀ r, sc.ra.alloc r = true → ra'.alloc r = true) ∧ sc.ra.max ≤ ra'.max ∧
+      SlotOK2 sc ra' c'.scopes c'.vals slot ∧ PrefA s.boxes s'.boxes ∧ EnvS G c'.scopes env' s'.boxes.size ra' ∧
+      NameFrame sc c.scopes c'.scopes slot ∧
+      ∀ (k : Cfg), k.w = s.st.world → k.args = #[] → EnvD c.scopes env s k.regs →
+        CodeAt (p.defs.getD f0.defIdx default).code k.pc seg → PrefL (pool ++ more) P → PrefA c'.vals V → ra'.max < k.regs.size →
+        ∃ regs', Reach p (inj f0 rest k) (inj f0 rest { regs := regs', pc := k.pc + seg.length, args := #[], w := s'.st.world }) ∧
+          regs'.size = k.regs.size ∧ (∀ r, sc.ra.alloc r = true → regs'.getD r .nil = k.regs.getD r .nil) ∧ slotVal V regs' slot = v ∧
+          EnvD c'.scopes env' s' regs' := by
+  obtain ⟨ra', nsyms, more, seg, segm, h1, h2, h3, h4, h5, h6, h7, h8, vm⟩ :=
+    tf_correct_calls p f0 rest V P hP hK FF G fuel e opts c c' slot sc rs pool ps n cur env env' s s' v ht hh hs hp hl htop hfrag hcomp hsem henv
+  refine ⟨ra', nsyms, more, seg, segm, h1, h2, h3, h4, h5, h6, h7, h8, fun k a1 a2 a3 a4 a5 a6 a7 => ?_⟩
+  obtain ⟨regs', r1, r2, r3, r4, r5⟩ := vm k a1 a2 a3 a4 a5 a6 a7
+  exact ⟨regs', r1, r2, r3, r4 rfl, r5⟩
+
+/-- non-vacuity: `(do (def x (tuple 1 2 3 4)) (emit x (tuple) (tuple x (def y 5) y)))` — calls with 4, 3, 0 operands, a `def` in operand
+    position whose name a later operand reads — is in the fragment with `G = {tuple, emit}` -/
+example : TF (fun f => f = "tuple" ∨ f = "emit") false
+    (.form [.sym "do",
+        .form [.sym "def", .sym "x", .form [.sym "tuple", .lit (.num 1), .lit (.num 2), .lit (.num 3), .lit (.num 4)] {}] {},
+        .form [.sym "emit", .sym "x", .form [.sym "tuple"] {},
+               .form [.sym "tuple", .sym "x", .form [.sym "def", .sym "y", .lit (.num 5)] {}, .sym "y"] {}] {}] {}) := by
+  refine .doo _ _ (fun e he => ?_)
+  simp only [List.mem_cons, List.not_mem_nil, or_false] at he
+  rcases he with rfl | rfl
+  · refine .deff "x" _ {} (by decide) (.call "tuple" _ {} (by decide) (by decide) (Or.inl rfl) (fun a ha => ?_))
+    simp only [List.mem_cons, List.not_mem_nil, or_false] at ha
+    rcases ha with rfl | rfl | rfl | rfl <;> exact .lit _ trivial
+  · refine .call "emit" _ {} (by decide) (by decide) (Or.inr rfl) (fun a ha => ?_)
+    simp only [List.mem_cons, List.not_mem_nil, or_false] at ha
+    rcases ha with rfl | rfl | rfl
+    · exact .sym "x"
+    · exact .call "tuple" _ {} (by decide) (by decide) (Or.inl rfl) (fun a ha => by simp at ha)
+    · refine .call "tuple" _ {} (by decide) (by decide) (Or.inl rfl) (fun a ha => ?_)
+      simp only [List.mem_cons, List.not_mem_nil, or_false] at ha
+      rcases ha with rfl | rfl | rfl
+      · exact .sym "x"
+      · exact .deff "y" _ {} (by decide) (.lit _ trivial)
+      · exact .sym "y"
 
 /-- `compile_correct` for the rest of the modelled fragment is NOT proved.  Proved of it: `compile_correct_calls` above, and
     (this theorem) the two atomic cases for every option set without hint / tail: a literal and a global function symbol compile
